@@ -22,8 +22,11 @@ def _p13e(ctx):
     g = ctx.graph(fn)
     x = g.x
     wc = x.ext_calls(r'Vec(::<.*>)?::with_capacity$')
-    fg = x.ext_calls(r'mem::forget$')
-    ok = len(wc) == 1 and _is(g, g.call_args(wc[0])[0], 'param', 1) and len(fg) == 1 and wc[0] in x.calls_in(g.call_args(fg[0])[0]) and \
+    # the buffer is leaked on every path: given to mem::forget or wrapped in ManuallyDrop, and never dropped
+    fg = [n_ for n_ in x.ext_calls(r'mem::forget$|ManuallyDrop(::<.*>)?::new$') if wc and wc[0] in x.calls_in(g.call_args(n_)[0])]
+    vdrops = [n_.id for n_ in g.nodes if n_.id in g.live() and n_.kind == 'block' and n_.term['k'] == 'drop' and wc
+              and 'ManuallyDrop' not in n_.term['dty']['s'] and wc[0] in x.calls_in(g.ev_place(n_.inst, n_.term['pl']))]
+    ok = len(wc) == 1 and _is(g, g.call_args(wc[0])[0], 'param', 1) and bool(fg) and not vdrops and \
         not (x.reachable_entry(blocked=set(fg)) & set(g.exits)) and wc[0] in x.calls_in(g.ev_local(g.root_inst, 0))
     ctx.add('P13e', 'T-FLOW', fn, ok, 'allocate(n) = buffer of capacity n, leaked (forgotten), its pointer returned' if ok else
             'alloc::allocate does not return the pointer of a forgotten Vec::with_capacity(n)', sub='allocate')
@@ -176,6 +179,12 @@ def _s3d(ctx):
         g = ctx.graph(name, 'BCast' if 'broadcast' in name else 'MPMC')
         x = g.x
         hits = [i for i in g.insts if re.search(base[meth], i.fn)]
+        if not hits:
+            # the body of the base impl may live in a helper that does not exist in the reference tree and that the
+            # base impl itself forwards to: reaching that helper directly is the same delegation
+            bf = {c_ for b_ in F.find_fns(base[meth]) for blk in F.fns[b_]['blocks'] if blk['term']['k'] == 'call'
+                  for c_ in [blk['term'].get('resolved') or blk['term'].get('fn')] if c_ in F.fresh}
+            hits = [i for i in g.insts if i.fn in bf]
         n += 1
         if meth == 'poll_complete':
             r = g.strip(g.ev_local(g.root_inst, 0))
